@@ -303,7 +303,7 @@ func (b *SBuilder) Build(v reflect.Value, path string) {
 		}
 		dom, _ := intDomain(t.Kind(), path)
 		if b.Wide {
-			dom = append(dom, 1, -2, 1<<31-2, -(1 << 31) + 1)
+			dom = append(dom, 1, -2, 1<<31-2, -(1<<31)+1)
 			if t.Kind() != reflect.Int32 {
 				dom = append(dom, 1<<31, 1<<32, -(1 << 32), 1<<53+1, math.MinInt64+1, math.MaxInt64-1)
 			}
